@@ -350,6 +350,92 @@ def cycle_scenarios():
   return out, len(apis) * 4
 
 
+class Box:
+  """A node type known only to a custom registry."""
+
+  def __init__(self, inner=None):
+    self.inner = inner
+
+
+def custom_registry_cycles():
+  """Cycle detection must also work for traversals with their own registry."""
+  reg = daglish.NodeTraverserRegistry(use_fallback=True)
+  reg.register_node_traverser(Box, flatten_fn=lambda b: ((b.inner,), None),
+                              unflatten_fn=lambda v, _: Box(v[0]),
+                              path_elements_fn=lambda b: (daglish.Attr('inner'),))
+  out = []
+  cases = []
+  a = Box()
+  a.inner = a
+  cases.append(('box-self', a))
+  b1, b2, b3 = Box(), Box(), Box()
+  b1.inner, b2.inner, b3.inner = b2, b3, b1
+  cases.append(('box-cycle-3', b1))
+  for name, root in cases:
+    def fn(value, state):
+      return state.map_children(value)
+    try:
+      daglish.MemoizedTraversal(fn, root, registry=reg).initial_state().call(root)
+      res = 'returned'
+    except RecursionError:
+      res = 'RecursionError'
+    except ValueError:
+      res = 'ValueError'
+    except Exception as e:  # pylint: disable=broad-except
+      res = 'error:' + type(e).__name__
+    if res != 'ValueError':
+      out.append(({'clause': 'cycle', 'structure': name, 'api': 'memoized-custom-registry',
+                   'observed': res},
+                  f'memoized traversal with a custom registry on {name}: {res} (cycle must be '
+                  f'reported by the traversal, not by exhausting the stack)'))
+  return out
+
+
+class Span:
+  """Node whose flatten creates fresh primitive leaves (big ints, strings, floats)."""
+
+  def __init__(self, lo, hi):
+    self.lo, self.hi = lo, hi
+
+  def expand(self):
+    for i in range(self.lo, self.hi):
+      yield 10**12 + i
+      yield 'item-%d' % i
+      yield i + 0.5
+
+
+def primitive_temporaries():
+  try:
+    daglish.register_node_traverser(
+        Span, flatten_fn=lambda s: (tuple(s.expand()), (s.lo, s.hi)),
+        unflatten_fn=lambda values, meta: list(values),
+        path_elements_fn=lambda s: tuple(daglish.Index(j) for j in range(3 * (s.hi - s.lo))))
+  except Exception:  # pylint: disable=broad-except
+    pass
+  out = []
+  n = 200
+  root = {'spans': [Span(7 * k, 7 * k + 5) for k in range(n)]}
+  def digest(v):
+    if isinstance(v, int):
+      return ('big', v - 10**12)
+    if isinstance(v, str):
+      return ('name', int(v[5:]))
+    return ('half', int(v))
+  exp = [d for sp in root['spans'] for i in range(sp.lo, sp.hi)
+         for d in (('big', i), ('name', i), ('half', i))]
+  got = [digest(v) for v, p in daglish.iterate(root, memoized=True)
+         if isinstance(v, (int, str, float)) and len(p) == 3]
+  if got != exp:
+    out.append(({'clause': 'temporaries-memoized-children', 'observed': len(got), 'expected': len(exp)},
+                f'memoized iterate reported {len(got)} of {len(exp)} fresh primitive children'))
+  rb = daglish.MemoizedTraversal.run(lambda v, s: s.map_children(v), root)
+  flat = [digest(v) for lst in rb['spans'] for v in lst]
+  if flat != exp:
+    out.append(({'clause': 'temporaries-rebuild-wrong', 'kind': 'primitives'},
+                f'identity rebuild kept {sum(1 for a, b in zip(flat, exp) if a == b)} of {len(exp)} children'))
+  return out
+
+
 def temporaries_scenarios():
   """Node type whose flatten creates temporaries (fresh lists at every call)."""
   c02.temporaries_scenario()      # registers Temp
@@ -439,7 +525,7 @@ def main():
       raise common.MachineryError('Trace_C08 accepted a stream with a missing pair')
     accepted = validate_records(v, recs, os.path.join(wd, 'c2s'))
     cyc, ncyc = cycle_scenarios()
-    for f, msg in cyc + temporaries_scenarios():
+    for f, msg in cyc + temporaries_scenarios() + custom_registry_cycles() + primitive_temporaries():
       v.mismatch(f, {'message': msg})
   v.coverage.update({
       'states': res.distinct, 'transitions': res.generated,
